@@ -69,6 +69,8 @@ struct Hideset {
 static HashMap macros;
 static CondIncl *cond_incl;
 static HashMap pragma_once;
+
+// Index after the include path in which the last lookup succeeded
 static int include_next_idx;
 
 static Token *preprocess2(Token *tok);
@@ -797,10 +799,15 @@ char *search_include_paths(char *filename) {
   if (filename[0] == '/')
     return filename;
 
+  include_next_idx = 0;
+
   static HashMap cache;
+  static HashMap cache_idx;
   char *cached = hashmap_get(&cache, filename);
-  if (cached)
+  if (cached) {
+    include_next_idx = (long)hashmap_get(&cache_idx, filename);
     return cached;
+  }
 
   // Search a file from the include paths.
   for (int i = 0; i < include_paths.len; i++) {
@@ -808,18 +815,24 @@ char *search_include_paths(char *filename) {
     if (!file_exists(path))
       continue;
     hashmap_put(&cache, filename, path);
+    hashmap_put(&cache_idx, filename, (void *)(long)(i + 1));
     include_next_idx = i + 1;
     return path;
   }
   return NULL;
 }
 
-static char *search_include_next(char *filename) {
-  for (; include_next_idx < include_paths.len; include_next_idx++) {
-    char *path = format("%s/%s", include_paths.data[include_next_idx], filename);
-    if (file_exists(path))
+// Continue the search after the include path in which the current
+// file was found.
+static char *search_include_next(char *filename, int start) {
+  for (int i = start; i < include_paths.len; i++) {
+    char *path = format("%s/%s", include_paths.data[i], filename);
+    if (file_exists(path)) {
+      include_next_idx = i + 1;
       return path;
+    }
   }
+  include_next_idx = 0;
   return NULL;
 }
 
@@ -912,7 +925,7 @@ static char *detect_include_guard(Token *tok) {
   return NULL;
 }
 
-static Token *include_file(Token *tok, char *path, Token *filename_tok) {
+static Token *include_file(Token *tok, char *path, Token *filename_tok, int next_idx) {
   // Check for "#pragma once"
   if (hashmap_get(&pragma_once, path))
     return tok;
@@ -933,6 +946,7 @@ static Token *include_file(Token *tok, char *path, Token *filename_tok) {
   if (!tok2)
     error_tok(filename_tok, "%s: cannot open file: %s", path, strerror(errno));
   tok2->file->include_depth = depth;
+  tok2->file->include_next_idx = next_idx;
 
   guard_name = detect_include_guard(tok2);
   if (guard_name)
@@ -990,21 +1004,21 @@ static Token *preprocess2(Token *tok) {
       if (filename[0] != '/' && is_dquote) {
         char *path = format("%s/%s", dirname(strdup(start->file->name)), filename);
         if (file_exists(path)) {
-          tok = include_file(tok, path, start->next->next);
+          tok = include_file(tok, path, start->next->next, 0);
           continue;
         }
       }
 
       char *path = search_include_paths(filename);
-      tok = include_file(tok, path ? path : filename, start->next->next);
+      tok = include_file(tok, path ? path : filename, start->next->next, include_next_idx);
       continue;
     }
 
     if (equal(tok, "include_next")) {
       bool ignore;
       char *filename = read_include_filename(&tok, tok->next, &ignore);
-      char *path = search_include_next(filename);
-      tok = include_file(tok, path ? path : filename, start->next->next);
+      char *path = search_include_next(filename, start->file->include_next_idx);
+      tok = include_file(tok, path ? path : filename, start->next->next, include_next_idx);
       continue;
     }
 
